@@ -8,16 +8,62 @@ import (
 	"go/token"
 	"go/types"
 	"strings"
+
+	"golang.org/x/tools/go/types/typeutil"
 )
 
 // recoverForward classifies a deferred literal: it calls recover() directly
 // and, when the value is non-nil, sends it on a channel. Returns the channel
 // variable object.
 func recoverForward(lit *ast.FuncLit, info *types.Info) types.Object {
-	if len(lit.Type.Params.List) != 0 || len(lit.Body.List) != 1 {
+	if len(lit.Type.Params.List) != 0 {
 		return nil
 	}
-	ifs, ok := lit.Body.List[0].(*ast.IfStmt)
+	return recoverForwardBody(lit.Body, info)
+}
+
+// deferredRecover classifies a defer statement: a recover-and-forward literal,
+// or a call of an in-module function whose body is that pattern with the
+// channel as a parameter (recover() is still called directly by the deferred
+// function). Returns the channel variable of the deferring function.
+func deferredRecover(P *Prog, ds *ast.DeferStmt, info *types.Info) types.Object {
+	if fl, ok := ast.Unparen(ds.Call.Fun).(*ast.FuncLit); ok {
+		if len(ds.Call.Args) != 0 {
+			return nil
+		}
+		return recoverForward(fl, info)
+	}
+	fn, ok := typeutil.Callee(info, ds.Call).(*types.Func)
+	if !ok {
+		return nil
+	}
+	fs := P.Funcs[fn.Origin()]
+	if fs == nil || fs.Decl.Recv != nil {
+		return nil
+	}
+	ch := recoverForwardBody(fs.Decl.Body, fs.Pkg.TypesInfo)
+	if ch == nil {
+		return nil
+	}
+	idx := 0
+	for _, f := range fs.Decl.Type.Params.List {
+		for _, nm := range f.Names {
+			if fs.Pkg.TypesInfo.Defs[nm] == ch && idx < len(ds.Call.Args) {
+				if id, ok := ast.Unparen(ds.Call.Args[idx]).(*ast.Ident); ok {
+					return info.Uses[id]
+				}
+			}
+			idx++
+		}
+	}
+	return nil
+}
+
+func recoverForwardBody(body *ast.BlockStmt, info *types.Info) types.Object {
+	if len(body.List) != 1 {
+		return nil
+	}
+	ifs, ok := body.List[0].(*ast.IfStmt)
 	if !ok || ifs.Init == nil || ifs.Else != nil {
 		return nil
 	}
@@ -127,15 +173,13 @@ func goStructure(c *Check, v *valTerms, name string) string {
 			if !ok {
 				continue
 			}
-			if fl, ok := ds.Call.Fun.(*ast.FuncLit); ok {
-				if o := recoverForward(fl, gn.Info); o != nil {
-					found = true
-					nRec++
-					if chObj == nil {
-						chObj = o
-					} else if chObj != o {
-						class = "MIXED-CHANNELS"
-					}
+			if o := deferredRecover(c.P, ds, gn.Info); o != nil {
+				found = true
+				nRec++
+				if chObj == nil {
+					chObj = o
+				} else if chObj != o {
+					class = "MIXED-CHANNELS"
 				}
 			}
 		}
@@ -265,6 +309,10 @@ func goStmtOf(fd *ast.FuncDecl, lit *ast.FuncLit) *ast.GoStmt {
 func isRangeKey(fd *ast.FuncDecl, info *types.Info, id *ast.Ident) bool {
 	obj := info.Uses[id]
 	found := false
+	if theProg != nil && obj != nil && (theProg.counterLoopBound(obj) != nil || theProg.counterLoopButLast(obj) != nil) {
+		// the counter of a counted loop over len(x): a range key in the graph
+		return true
+	}
 	ast.Inspect(fd, func(n ast.Node) bool {
 		if r, ok := n.(*ast.RangeStmt); ok && r.Key != nil {
 			if k, ok := r.Key.(*ast.Ident); ok && info.Defs[k] == obj {
@@ -276,7 +324,11 @@ func isRangeKey(fd *ast.FuncDecl, info *types.Info, id *ast.Ident) bool {
 	return found
 }
 
+// theProg: the program being analysed (for syntactic helpers without a Check at hand).
+var theProg *Prog
+
 func checkC17(c *Check) {
+	theProg = c.P
 	c.Explain = "C17: the classic static argument for fork/join code, per go site of both fan-out entry points (goroutine bodies spliced in): (1) wg.Add(1) precedes each go in its iteration and is always followed by it, at most one goroutine per iteration, the goroutine defers wg.Done() first, wg.Wait() lies on every path to every exit after a goroutine was started, nothing is started after Wait; (2) each goroutine defers a literal that recovers and forwards the value on a channel buffered with at least one slot per goroutine, the spawner polls the channel after the join and re-raises the value with panic, close is only deferred by the spawner; (3) goroutines store only results[i] for the i bound to the range key and into objects created inside them, and assign no captured variable; (4) no package-level variable of the revocation packages is written outside its declaration and no method of the fetcher/validator writes a receiver field; (5) all go sites have the same structure class. From these: slot i depends only on certificate i's exchanges; every started goroutine finished when the call returns (also under cancellation: the join is unconditional); a panic resurfaces on the caller. Not decided: races inside net/http and caller-supplied components; runtime goroutine counts."
 	c.Assume = append(c.Assume, "sync.WaitGroup provides the happens-before edge between Done and the return of Wait", "caller-supplied fetchers, caches and transports are safe for concurrent use (their contract)")
 	fn := validatorMethod(c)
